@@ -499,6 +499,8 @@ pub fn test_synth(ctx: &Ctx, case: &SynthCase, st: &mut Stats) -> Verdict {
             Expr::Constant(DV::Int32(0)), Expr::Constant(DV::Int32(1)), Expr::Constant(DV::Int32(-1)), Expr::Constant(DV::Int32(2)), Expr::Constant(DV::Int32(3)),
             Expr::Constant(DV::Bool(true)), Expr::Constant(DV::Bool(false)), Expr::Constant(DV::Null),
             Expr::Constant(DV::String("a".into())), Expr::Constant(DV::String("".into())),
+            // bounds of another numeric type (side conditions that compare two constants)
+            Expr::Constant(DV::Decimal(rust_decimal::Decimal::new(25, 1))), Expr::Constant(DV::Decimal(rust_decimal::Decimal::new(5, 1))),
             col(0), col(1), col(3), col(0), col(1), col(2), col(3), col(4),
         ];
         // instantiate the pattern: the k-th distinct variable gets leaf leaves[k]; if that is
@@ -523,7 +525,7 @@ pub fn test_synth(ctx: &Ctx, case: &SynthCase, st: &mut Stats) -> Verdict {
                         // later variables are constants more often (rules with side conditions
                         // over two constants, e.g. the and-*-fold family)
                         let raw = case.leaves[k % case.leaves.len()] as usize;
-                        let base = if k >= 1 && raw >= 12 { 6 + raw % 10 } else { raw };
+                        let base = if k >= 1 && raw >= 12 { 6 + raw % 12 } else { raw };
                         let li = (base + attempt * (5 + k)) % pool.len();
                         map.push(lhs.add(pool[li].clone()));
                     }
